@@ -31,12 +31,13 @@ POOLS = {
     "cbit": [True],
     "cpkl": [(1, 2), u"s", {"a": [1]}, 3.5],
     "ccomp": [u"c" * 10, u"", u"é" * 50, u"zip" * 400],
+    "ccol": [b"c1", b"\x00\xff", b"col" * 60, b"z"],        # a column-only field (fields.COLUMN): no postings at all
 }
 for i in range(300):                      # enough distinct values to cross the 256 threshold of reference columns
     POOLS["cref"].append(u"ref-%04d" % i)
 
 STORED_FIELDS = ("blob", "tags", "num", "big", "ratio", "when", "flag")
-COLUMN_FIELDS = ("num", "big", "ratio", "when", "flag", "cref", "cvar", "cfix", "cbit", "cpkl", "ccomp", "tags")
+COLUMN_FIELDS = ("num", "big", "ratio", "when", "flag", "cref", "cvar", "cfix", "cbit", "cpkl", "ccomp", "tags", "ccol")
 
 
 def okey(v):
@@ -78,6 +79,7 @@ def make_schema(variant=0):
         cbit=fields.BOOLEAN(),
         cpkl=fields.STORED,
         ccomp=fields.ID(sortable=columns.CompressedBytesColumn()),
+        ccol=fields.COLUMN(columns.VarBytesColumn()),
     )
     # a dynamic field: indexed, scorable, with vectors, not stored
     schema.add("*_dyn", fields.TEXT(analyzer=ana, phrase=True, vector=(variant % 2 == 0)), glob=True)
@@ -94,7 +96,7 @@ def rand_adoc(rng, key, rich=True):
         for f in STORED_FIELDS:
             if rng.random() < 0.6:
                 d["s"][f] = rng.randrange(1, len(POOLS[f]) + 1)
-        for f in ("cref", "cvar", "cfix", "ccomp"):
+        for f in ("cref", "cvar", "cfix", "ccomp", "ccol"):
             if rng.random() < 0.6:
                 d["c"][f] = rng.randrange(1, min(len(POOLS[f]), 12) + 1)
     # stored numeric/date/keyword fields double as sortable columns with the same value
@@ -232,9 +234,19 @@ class CWorld(object):
                 kw["limitmb"] = self.cfg["limitmb"]       # tiny: the posting pool spills runs to disk
             opts = step[2] if len(step) > 2 else {}
             if fe == "async" and step[0] == "commit":
-                w = writing.AsyncWriter(self.ix, writerargs=kw)
-                for k in step[1]:
+                holder = None
+                if self.cfg.get("contended"):
+                    # the index is locked while the AsyncWriter is created and takes its first documents (which it
+                    # has to buffer), and free again half way through; the other writer changes nothing
+                    holder = self.ix.writer()
+                w = writing.AsyncWriter(self.ix, delay=0.01, writerargs=kw)
+                for i, k in enumerate(step[1]):
+                    if holder is not None and i == (len(step[1]) + 1) // 2:
+                        holder.cancel()
+                        holder = None
                     w.add_document(**concrete_kwargs(adocs[k]))
+                if holder is not None:
+                    holder.cancel()
                 w.commit(merge=opts.get("merge", True), optimize=opts.get("optimize", False))
                 if w.is_alive():
                     w.join(60)
